@@ -109,7 +109,7 @@ class DecoderFacts:
                 self.tag_edges.append((node, label, a[3], a[1][2]))
         return out
 
-    def _gen(self, node, s):
+    def _gen(self, node, s, pre=None):
         out = []
         for c in ir.calls_in(self.fn, node.el.e):
             if c[1] and SETINF.match(c[1]) and c[2] and ir.base_var(self.fn, c[2][0]) == self.obj:
